@@ -141,3 +141,201 @@ def C11(ck):
     kzreader.replay(ck, scen, {'R_Prefix', 'R_EOFOnlyAtEnd'})
     kzreader.record(ck, 'c11x', 0, thorough=T)
     kzreader.record(ck, 'c11', 1500 if T else 250, thorough=T)
+
+
+# ------------------------------------------------------------------------------------------------
+import kzwriter
+from kzwriter import wcfg
+
+LEVEL['C04'] = 'model_checking'
+
+
+def C04(ck):
+    T = thorough(ck)
+    cfgs = []
+    for jobs in ((1, 2, 3, 4) if T else (1, 2, 3)):
+        for L in ((0, 1, 4, 5, 7, 9) if T else (0, 3, 7)):
+            if jobs == 4 and L > 7:
+                continue
+            nb = (L + 1) // 2
+            hints = sorted({0, nb} | ({1, 2, nb + 2} if (T or jobs == 3) else {1}))
+            for hint in hints:
+                cfgs.append(wcfg(jobs, L, lens=(0, 1, 3, 5) if jobs < 4 else (3, 5), hint=hint))
+    ck.cov['rule'] = ('KzWriter exhaustively for each (jobs, data length, hint, Write lengths): W_Partition/W_Mutex/W_TokenOrder in every '
+                      'interleaving; every edge replayed on the real Writer through gates and the sink content compared frame by frame with '
+                      'the data (independent parser); record mode: identical data+parameters through jobs {1,2,3,4,8,64} x Write partitions x '
+                      'repeated runs x perturbed schedules must give byte-identical streams (Trace_Writer: Out events), over random transform '
+                      'chains and all entropy codecs')
+    kzwriter.selftest_asis(ck, wcfg(2, 6, hint=1))
+    scen = kzwriter.run_models(ck, cfgs, liveness_cfgs=[wcfg(3, 7, lens=(3, 5))])
+    kzwriter.replay(ck, scen)
+    kzwriter.record(ck, 'c04', 120 if T else 14, thorough=T)
+    ck.assumptions += ['E_Local (transform + entropy coding of one block) is treated as a function of the block: the record-mode digests test it']
+
+
+LEVEL['C08'] = 'fault_enumeration'
+
+
+def C08(ck):
+    T = thorough(ck)
+    cfgs = []
+    for jobs in ((1, 2, 3) if T else (1, 2)):
+        for L in ((3, 5, 7) if T else (5,)):
+            nb = (L + 1) // 2
+            # sink fault while block k is emitted (single, and pairs in thorough)
+            for k in range(1, nb + 1):
+                cfgs.append(wcfg(jobs, L, lens=(3, 5), flush='emit', fail_blocks=[k], post=3))
+            if T:
+                for k1, k2 in itertools.combinations(range(1, nb + 1), 2):
+                    cfgs.append(wcfg(jobs, L, lens=(3,), flush='emit', fail_blocks=[k1, k2], post=3))
+            # codec fault in block k
+            for k in range(1, nb + 1):
+                cfgs.append(wcfg(jobs, L, lens=(3, 5), flush='close', fail_local=[k], post=3))
+            # faults of the final flush and of the Close of the sink, with retries
+            for cf, sf in ((1, 0), (0, 1), (1, 1), (2, 0)) if T else ((1, 0), (0, 1), (1, 1)):
+                cfgs.append(wcfg(jobs, L, lens=(3, 5), flush='close', close_fails=cf, sink_fails=sf, post=4))
+    ck.cov['rule'] = ('KzWriter with a sink fault during the emit of every block, a codec fault in every block, failing final flush / sink '
+                      'Close with retries: W_CloseOK, W_FailureReported, W_NoPanic; every edge replayed on the real Writer with the faults '
+                      'placed by the model; record mode (fault_enumeration): fault-free run counts the sink calls, then one run per failing '
+                      'call index k (once / forever / partial write) x caller reaction (close / retry close / keep writing), judged by '
+                      'Trace_Writer (C08_swallowed_failure, W_CloseOK, C08_panic); source faults on the read side: KzBitIn in C06/C14')
+    kzwriter.selftest_asis(ck, wcfg(2, 6, flush='emit', fail_blocks=[1]))
+    scen = kzwriter.run_models(ck, cfgs)
+    kzwriter.replay(ck, scen)
+    kzwriter.record(ck, 'c08', 10 if T else 3, thorough=T)
+    kzreader.record(ck, 'c08r', 600 if T else 150, thorough=T)
+    ck.cov['exhaustive'] = False
+
+
+LEVEL['C17'] = 'model_checking'
+
+
+def C17(ck):
+    T = thorough(ck)
+    cfgs = []
+    for jobs in ((1, 2, 3) if T else (1, 2)):
+        for L in ((0, 2, 5, 7) if T else (0, 5)):
+            cfgs.append(wcfg(jobs, L, lens=(0, 1, 2, 3, 5), post=4 if T else 3))
+            cfgs.append(wcfg(jobs, L, lens=(0, 3), close_fails=1, post=3))
+    rcfgs = []
+    for jobs in (1, 2):
+        for n in (0, 2, 3):
+            rcfgs.append(rcfg(jobs, clean(n), lens=(0, 1, 3), post=4 if T else 3))
+    ck.cov['rule'] = ('KzWriter / KzReader with the full call alphabet (Write/Read of lengths 0,1,B-1..,Close repeated, calls after Close) up to '
+                      'MaxPost calls after the end: W_ClosedRefuses, R_ClosedRefuses, W_CloseOK; all edges replayed on the real objects; record '
+                      'mode: random API programs over Write(len)/Close/GetWritten and Read/Close judged step by step by Trace_Writer / '
+                      'Trace_Reader (idempotent Close, refusal after Close, full-length Write, monotone counters, GetWritten = sink size)')
+    scen = kzwriter.run_models(ck, cfgs)
+    kzwriter.replay(ck, scen)
+    rscen = kzreader.run_models(ck, rcfgs)
+    kzreader.replay(ck, rscen, set())
+    kzwriter.record(ck, 'c17', 1500 if T else 300, thorough=T)
+    kzreader.record(ck, 'c17r', 1500 if T else 300, thorough=T)
+
+
+LEVEL['C01'] = 'model_checking'
+
+
+def C01(ck):
+    T = thorough(ck)
+    wcfgs, rcfgs = [], []
+    for jobs in ((1, 2, 3) if T else (1, 2, 3)):
+        for L in ((0, 1, 2, 5, 7, 9) if T else (0, 1, 5, 7)):
+            nb = (L + 1) // 2
+            # hint classes: absent, exact, smaller by >= 1 block, larger, one block
+            for hint in sorted({0, nb, max(nb - 1, 0), nb + 2, 1}):
+                if not T and jobs == 3 and hint not in (0, 1, nb):
+                    continue
+                wcfgs.append(wcfg(jobs, L, lens=(1, 3, 5) if L > 1 else (0, 1), hint=hint))
+    for jobs in (1, 2, 3):
+        for n in ((0, 1, 2, 3, 5) if T else (0, 2, 5)):
+            for last in (1, 2):
+                if n == 0 and last == 2:
+                    continue
+                rcfgs.append(rcfg(jobs, clean(n), last=last, lens=(1, 3, 5), hint=n if last == 1 else 0))
+    ck.cov['rule'] = ('stream layer: KzWriter (every Write partition x hint class x jobs: W_CloseOK, W_Partition) and KzReader on clean wires '
+                      '(R_CompleteAtEOF) model-checked, all edges replayed on the real code; codec layer (explored, not decided): record-mode '
+                      'round trips through NewWriterWithCtx/NewReaderWithCtx over the ten level presets, all single transforms, random chains '
+                      'of 1..8 transforms x 9 entropy codecs x 19 data shapes x block sizes x jobs x checksum x hint classes x headerless x '
+                      'Write partitions, judged by Trace_Writer (Close nil, decoded digest = accepted digest); configurations that the '
+                      'constructor accepts must round-trip (c01cfg). non-trivial = distinct (chain, entropy, block, jobs, ck, hint, partition, shape)')
+    kzwriter.selftest_asis(ck, wcfg(2, 6, hint=1))
+    scen = kzwriter.run_models(ck, wcfgs)
+    kzwriter.replay(ck, scen)
+    rscen = kzreader.run_models(ck, rcfgs)
+    kzreader.replay(ck, rscen, set())
+    kzwriter.record(ck, 'c01', 6000 if T else 700, thorough=T, timeout=7000)
+    kzwriter.record(ck, 'c01cfg', 1500 if T else 300, thorough=T)
+    ck.assumptions += ['the codec layer is explored on generated data shapes, not decided for all inputs',
+                       'decoding uses the real Reader (the round trip is the property)']
+
+
+LEVEL['C07'] = 'model_checking'
+
+
+def C07(ck):
+    T = thorough(ck)
+    wcfgs, rcfgs, wlive, rlive = [], [], [], []
+    # writer: N tasks, a failure at every step kind of every task: local (before the wait), emit (holding the stream)
+    for jobs in ((2, 3, 4) if T else (2, 3)):
+        L = 2 * jobs + 1
+        lens = (L,) if jobs == 4 else (3, L)
+        wcfgs.append(wcfg(jobs, L, lens=lens))
+        for k in range(1, jobs + 2):
+            wcfgs.append(wcfg(jobs, L, lens=lens, flush='emit', fail_blocks=[k]))
+            wcfgs.append(wcfg(jobs, L, lens=lens, flush='close', fail_local=[k]))
+        wlive.append(wcfg(jobs, L, lens=(L,), flush='emit', fail_blocks=[2]))
+        wlive.append(wcfg(jobs, L, lens=(L,), fail_local=[1]))
+    # reader: N tasks, failure (crc after publishing, fail, truncation while holding the stream), end of stream, skipped blocks
+    for jobs in ((2, 3, 4) if T else (2, 3)):
+        n = jobs + 1
+        lens = (2 * n,) if jobs == 4 else (3, 2 * n)
+        rcfgs.append(rcfg(jobs, clean(n), lens=lens))
+        for pos in range(n):
+            for kind in ('crc', 'fail'):
+                k = clean(n)
+                k[pos] = kind
+                rcfgs.append(rcfg(jobs, k, lens=lens))
+            rcfgs.append(rcfg(jobs, ['ok'] * pos, lens=lens))          # truncated after pos blocks
+        rcfgs.append(rcfg(jobs, clean(n), lens=lens, fr=2, to=3))
+        rcfgs.append(rcfg(jobs, clean(n), lens=lens, fr=n + 1, to=n + 2))  # every batch entirely skipped
+        rlive.append(rcfg(jobs, ['ok', 'crc'] + ['ok'] * (n - 2) + ['eos'], lens=(2 * n,)))
+        rlive.append(rcfg(jobs, ['ok'] * 2, lens=(2 * n,)))
+    ck.cov['rule'] = ('protocol configs of KzWriter/KzReader: N = 2..3 (4 in thorough) concurrent tasks x a failure in every block position and '
+                      'of every kind (codec error before the wait, sink/source failure while holding the stream, checksum error after '
+                      'publishing), end of stream, skipped batches: Mutex, TokenOrder, CancelSticks, FailureReported, deadlock freedom, and '
+                      'liveness (every call returns, every task finishes) under weak fairness; every edge of every graph replayed on the '
+                      'real code through the gate hooks with the faults injected at the same steps; free-running executions (jobs up to 64) '
+                      'checked for exclusive, ordered, always-terminating hand-off by Trace_Reader/Trace_Writer interval predicates')
+    scen = kzwriter.run_models(ck, wcfgs, liveness_cfgs=wlive)
+    kzwriter.replay(ck, scen)
+    rscen = kzreader.run_models(ck, rcfgs, liveness_cfgs=rlive)
+    kzreader.replay(ck, rscen, set())
+    kzreader.record(ck, 'c05', 1200 if T else 200, thorough=T)
+    kzreader.record(ck, 'c02', 1200 if T else 200, thorough=T)
+    kzwriter.record(ck, 'c07w', 1500 if T else 250, thorough=T)
+
+
+LEVEL['C06'] = 'model_checking'
+
+
+def C06(ck):
+    T = thorough(ck)
+    wcfgs, rcfgs = [], []
+    for jobs in (1, 2, 3):
+        for L in ((5, 7) if T else (7,)):
+            wcfgs.append(wcfg(jobs, L, lens=(0, 1, 2, 3, 4, 5), hint=0))
+        for n in ((3, 5) if T else (4,)):
+            for last in (1, 2):
+                rcfgs.append(rcfg(jobs, clean(n), last=last, lens=(0, 1, 2, 3, 4, 5)))
+    ck.cov['rule'] = ('KzWriter/KzReader with every mix of Write/Read buffer lengths 0..5 (block = 2): W_Partition and R_Prefix are independent '
+                      'of the call partition (model-checked, replayed); KzBitIn (input bitstream over a source delivering arbitrary chunk '
+                      'sizes) model-checked in C14; record mode: real streams over all codec pairs decoded through sources delivering '
+                      '1, 7, 8, 9, 13/5/64, 1..7, random, 4095+1 bytes per call with random Read buffer sizes (incl. 0) and compressed '
+                      'through random Write partitions: digests equal the plain run (Trace_Reader / Trace_Writer)')
+    scen = kzwriter.run_models(ck, wcfgs)
+    kzwriter.replay(ck, scen)
+    rscen = kzreader.run_models(ck, rcfgs)
+    kzreader.replay(ck, rscen, set())
+    kzreader.record(ck, 'c06', 2000 if T else 400, thorough=T)
+    kzwriter.record(ck, 'c04', 60 if T else 8, thorough=T)
